@@ -15,12 +15,21 @@ SimNext == /\ Len(hist) < MaxLen
               \/ \E r, q \in Rank : SendApp(r, q) /\ H("SendApp", r, q)
               \/ \E q \in Rank : RecvStart(q) /\ H("RecvStart", q, -1)
               \/ \E q \in Rank : RecvEnd(q) /\ H("RecvEnd", q, -1)
+              \/ \E q \in Rank : RecvEndTask(q) /\ H("RecvEndTask", q, -1)
               \/ \E p, r \in Rank : MsgUp(p, r) /\ H("MsgUp", p, r)
               \/ \E p, r \in Rank : MsgDown(p, r) /\ H("MsgDown", p, r)
               \/ \E p, r \in Rank : MsgDelay(p, r) /\ H("MsgDelay", p, r)
 SimSpec == SimInit /\ [][SimNext]_<<vars, hist>>
 \* a behaviour is handed over when it is MaxLen long or when nothing can happen any more
 Emit == (Len(hist) = MaxLen \/ (hist # <<>> /\ ~ ENABLED SimNext)) => PrintT(<<"VH", ToJson(hist)>>)
-\* (sensitivity self-test: run on a weakened Variant with VIEW vars; hands over the shortest unsafe behaviour)
-EmitUnsafe == (~Safe) => PrintT(<<"VH", ToJson(hist)>>)
+\* Directed behaviours: run with Variants = the weakened variants, VIEW vars, BFS with ONE worker.  For every variant the
+\* FIRST state that is unsafe or stranded (= a shortest such behaviour of that variant) is handed over once (TLC register 1
+\* holds the variants already served; the constraint stops exploring a served variant).  The MC module must contain
+\* ASSUME TLCSet(1, {}).
+Bad == ~Safe \/ Strand
+EmitBad == Bad => \/ variant \in TLCGet(1)
+                  \/ /\ PrintT(<<"VH", ToJson([variant |-> variant, kind |-> IF ~Safe THEN "unsafe" ELSE "strand", hist |-> hist])>>)
+                     /\ TLCSet(1, TLCGet(1) \cup {variant})
+Unserved == variant \notin TLCGet(1)
+AllServed == TLCGet(1) # Variants          \* "violated" = every variant has been served: stop
 ===============================================================================
